@@ -397,6 +397,21 @@ func driver(args []string) int {
 	}
 	watch(first)
 	kids = append(kids, first...)
+	// Under the race detector an unsynchronised first use is reported whether or not the
+	// accesses overlap in time, so the cold processes need not have the machine to
+	// themselves: eight at a time.
+	batch := 1
+	if os.Getenv("VERIF_RACE_SIDE") == "1" {
+		batch = 8
+	}
+	var cur []*child
+	flush := func() {
+		if len(cur) > 0 {
+			watch(cur)
+			kids = append(kids, cur...)
+			cur = nil
+		}
+	}
 	for i := range parts {
 		if !isFresh(i) {
 			continue
@@ -406,9 +421,11 @@ func driver(args []string) int {
 			fmt.Fprintln(os.Stderr, err)
 			return 2
 		}
-		watch([]*child{ch})
-		kids = append(kids, ch)
+		if cur = append(cur, ch); len(cur) >= batch {
+			flush()
+		}
 	}
+	flush()
 
 	// merge
 	m := &merged{cov: map[string]map[string]int64{}, cnt: map[string]int64{}}
